@@ -29,7 +29,8 @@ func (g *GenericPlanner) WrapProcess(ctx *shared.PlannerContext,
 			}()
 		}
 		defer close(out)
-		defer func() { shared.TamePanic(out) }()
+		// recover() only works when called directly by the deferred function
+		defer shared.TamePanic(out)
 		for entries := range _in {
 			for i := range entries {
 				err := ops.OnEntry(&entries[i])
